@@ -48,3 +48,17 @@ Definition stereogenic_entry (g : mol) (n : Z) : option (list Z) :=
 (* the dictionary, in the order of self.atoms() *)
 Definition stereogenic_tetrahedrons_of (g : mol) : list (Z * list Z) :=
   flat_map (fun n => match stereogenic_entry g n with Some e => [(n, e)] | None => [] end) (ids g).
+
+(* ------------------------------------------------------------------------------------------------ *)
+(* the adjacency from_rdkit_molecule builds: atoms first (empty neighbour dictionaries, in order), then for every RDKit bond
+   mol.add_bond(n, m, order):  self._bonds[n][m] = self._bonds[m][n] = bond   -- appended at the end of both inner dictionaries *)
+Definition add_nbr (adj : list (Z * list (Z * bond))) (n m : Z) (b : bond) : list (Z * list (Z * bond)) :=
+  map (fun nl => if fst nl =? n then (fst nl, snd nl ++ [(m, b)]) else nl) adj.
+Definition add_bond_adj (adj : list (Z * list (Z * bond))) (x : Z * Z * Z) : list (Z * list (Z * bond)) :=
+  let '(n, m, o) := x in add_nbr (add_nbr adj n m (mkBond o None)) m n (mkBond o None).
+Definition build_adj (nums : list Z) (bonds : list (Z * Z * Z)) : list (Z * list (Z * bond)) :=
+  fold_left add_bond_adj bonds (map (fun n => (n, [])) nums).
+
+(* the neighbours (with bond orders) a bond list gives an atom, in the order of the list *)
+Definition incident (n : Z) (bonds : list (Z * Z * Z)) : list (Z * Z) :=
+  flat_map (fun x => let '(a, b, o) := x in if a =? n then [(b, o)] else if b =? n then [(a, o)] else []) bonds.
